@@ -41,6 +41,9 @@ def run(check: Check, repo: Repo, tier: str) -> None:
     D.cross_schema_identity(check, repo)
     G.zip_filter(check, [repo.mod(mn) for mn in MODS] + [repo.mod("utilities.find_schema_changes")])
     G.arg_name_match(check, repo, funcs)
+    G.param_readonly(check, funcs)
+    G.independent_keys(check, funcs)
+    G.kwargs_complete(check, repo, [repo.mod(mn) for mn in MODS] + [repo.mod("type.definition"), repo.mod("type.directives"), repo.mod("type.schema")])
     check.rule("DISPATCH-EXH", "every member of a closed class family has a handling arm in the dispatch")
     # extend_schema_args over definition / extension classes
     es = repo.func("utilities.extend_schema", "ExtendSchemaImpl.extend_schema_args")
